@@ -1309,6 +1309,11 @@ class Compiler(compiler.Compiler):
         return CompiledType(compiled_type)
 
     def compile_type(self, name, type_descriptor, module_name):
+        # Values in a constraint applied to a type reference are looked
+        # up in the module of the reference, not in the module of the
+        # referenced type.
+        constraint_module_name = type_descriptor.get('module-name',
+                                                     module_name)
         module_name = self.get_module_name(type_descriptor, module_name)
         type_name = type_descriptor['type']
 
@@ -1450,7 +1455,7 @@ class Compiler(compiler.Compiler):
         if 'restricted-to' in type_descriptor:
             compiled = self.set_compiled_restricted_to(compiled,
                                                        type_descriptor,
-                                                       module_name)
+                                                       constraint_module_name)
 
         return compiled
 
